@@ -1448,15 +1448,25 @@ impl<'a, M: Matcher, W: WriteColor> StandardImpl<'a, M, W> {
         if this_search_written {
             return Ok(());
         }
+        self.write_search_separator()?;
+        if self.config().heading {
+            self.write_path_line()?;
+        }
+        Ok(())
+    }
+
+    /// Write the separator between the output of two searches, if one is
+    /// configured and an earlier search has written something.
+    ///
+    /// This must only be called before anything has been written for the
+    /// current search.
+    fn write_search_separator(&self) -> io::Result<()> {
         if let Some(ref sep) = *self.config().separator_search {
             let ever_written = self.wtr().borrow().total_count() > 0;
             if ever_written {
                 self.write(sep)?;
                 self.write_line_term()?;
             }
-        }
-        if self.config().heading {
-            self.write_path_line()?;
         }
         Ok(())
     }
@@ -1486,6 +1496,11 @@ impl<'a, M: Matcher, W: WriteColor> StandardImpl<'a, M, W> {
         } else if let Some(byte) = bin.convert_byte() {
             if self.sink.match_count == 0 {
                 return Ok(());
+            }
+            // This notice may be all that is written for this search, in
+            // which case it is what the separator has to come before.
+            if self.wtr().borrow().count() == 0 {
+                self.write_search_separator()?;
             }
             if let Some(path) = self.path() {
                 self.write_path_hyperlink(path)?;
